@@ -361,7 +361,7 @@ PROPS["C20"] = {
                     "fsnotify delivery is not modelled: the reload functions are called directly after rewriting the file",
                     "a deferred Unlock would be recorded at the defer site by the translator (none exists in the modelled functions)"],
     "trusted_base": ["translator go/xlate/sync.go (event programs from the Go AST)", "the Go race detector and scheduler for the stress run"],
-    "level_text": "c20_serial_reloads_publish_final (reloads run by one event loop: once a reload that read the final contents has published, the published contents are the file's; refuted for overlapping reloads), c20_watcher_serial (every call of the reload callback in the regenerated pkg/watcher/watcher.go sits in the event loop); c20_drf (for ANY event programs passing the static lock discipline, ANY number of goroutines and ANY interleaving: no race "
+    "level_text": "c20_rearm_then_reload_safe (the file watch under any sequence of writes, replacements and event-loop steps: re-arming before reloading never loses an update; the neighbouring orders are refuted), c20_watcher_remove_branch_pinned (that order regenerated from pkg/watcher/watcher.go); c20_serial_reloads_publish_final (reloads run by one event loop: once a reload that read the final contents has published, the published contents are the file's; refuted for overlapping reloads), c20_watcher_serial (every call of the reload callback in the regenerated pkg/watcher/watcher.go sits in the event loop); c20_drf (for ANY event programs passing the static lock discipline, ANY number of goroutines and ANY interleaving: no race "
                   "state is reachable; inductive invariant over the RWMutex transition system), c20_generated_well_locked (the programs "
                   "REGENERATED from htpasswd.go / validator.go on this run pass the discipline, by computation), c20_generated_drf, "
                   "c20_snapshot (one pointer read per validation; published maps never mutated), c20_failed_reload (one publication per reload, "
